@@ -354,7 +354,7 @@ func init() {
 		255: reflect.TypeOf((*Bag)(nil)), 7: reflect.TypeOf(CustC{}),
 	}
 	add("Shape", (*Shape)(nil))
-	must(api.RegisterTypeSettings(Shapes{}, lp(b8).WithMaxLen(3).WithArrayRules(&serix.ArrayRules{
+	must(api.RegisterTypeSettings(Shapes{}, lp(b8).WithArrayRules(&serix.ArrayRules{
 		Max:            3,
 		MustOccur:      serializer.TypePrefixes{0: struct{}{}},
 		ValidationMode: serializer.ArrayValidationModeAtMostOneOfEachTypeByte,
